@@ -859,7 +859,7 @@ func (w *JobWorld) oracleC05fields(br *world.BlockResult) []*core.Violation {
 		if q.Msg == nil || q.Bytes == nil {
 			continue
 		}
-		if p := w.Prev[id]; p != nil && bytes.Equal(p.Bytes, q.Bytes) {
+		if p := w.Prev[id]; p != nil && bytes.Equal(p.Bytes, q.Bytes) && p.Raw.GasEstimate == q.Raw.GasEstimate {
 			continue // unchanged since the last boundary: already checked in this lifecycle stage
 		}
 		muts := deliveredFieldMutations(q)
